@@ -52,6 +52,14 @@ class Ctx:
             if len(self.distinct) < 2_000_000:
                 self.distinct.add(hash(key))
 
+    def progress(self, obj):
+        """remember the case that is about to run (reported if the implementation kills the process)"""
+        try:
+            with open(os.path.join(VERIF, "replay", "%s_last.json" % self.prop), "w") as f:
+                json.dump(obj, f, default=repr)
+        except Exception:  # noqa
+            pass
+
     def sample(self, obj, limit=6):
         if len(self.samples) < limit:
             self.samples.append(obj)
@@ -152,6 +160,7 @@ def main(argv=None):
                     choices=["quick", "thorough"])
     ap.add_argument("--replay")
     ap.add_argument("--setup", action="store_true")
+    ap.add_argument("--crashed", type=int, default=None, help=argparse.SUPPRESS)
     args = ap.parse_args(argv)
     seed = int(os.environ.get("VERIF_SEED") or 20260930)
 
@@ -170,13 +179,32 @@ def main(argv=None):
         env = dict(os.environ)
         env.update(PYTHONPATH=want, PYTHONHASHSEED="0", VERIF_REEXEC=impl_dir,
                    PYTHONDONTWRITEBYTECODE="1")
-        os.execve(sys.executable, [sys.executable, os.path.abspath(__file__)] + sys.argv[1:], env)
+        # the implementation runs in a child: if it takes the process down (segfault, abort)
+        # that is reported as a violation with the case that was running as the replay
+        import subprocess
+        cmd = [sys.executable, os.path.abspath(__file__)] + sys.argv[1:]
+        rc = subprocess.call(cmd, env=env)
+        if rc in (0, 1) or args.replay:
+            return rc
+        rc2 = subprocess.call(cmd + ["--crashed", str(rc)], env=env)
+        if rc2 not in (0, 1):
+            path = os.path.join(VERIF, "replay", "%s_crash.json" % prop)
+            json.dump({"property": prop, "what": "the check process died (exit status %d) and so did the reporting pass (%d)" % (rc, rc2)}, open(path, "w"))
+            print("VIOLATION property=%s replay=%s" % (prop, path))
+            return 1
+        return rc2
 
     ctx = Ctx(prop, args.tier, seed)
     ctx.impl_dir = impl_dir
     mod = importlib.import_module("harness.props." + prop.lower())
     os.makedirs(os.path.join(VERIF, "evidence"), exist_ok=True)
     os.makedirs(os.path.join(VERIF, "replay"), exist_ok=True)
+    last_case = None
+    if args.crashed is not None:
+        try:
+            last_case = json.load(open(os.path.join(VERIF, "replay", "%s_last.json" % prop)))
+        except Exception:  # noqa
+            last_case = None
     if not args.replay:
         import glob
         for old in glob.glob(os.path.join(VERIF, "replay", "%s_*.json" % prop)):
@@ -198,6 +226,12 @@ def main(argv=None):
             ctx.obligation_broken("translator " + k, v)
     check_obligations(ctx, mod)
     # 4. correspondence + oracle
+    if args.crashed is not None:
+        rc0 = args.crashed
+        how = "signal %d" % (-rc0 if rc0 < 0 else rc0 - 128) if (rc0 < 0 or rc0 > 128) else "exit status %d" % rc0
+        ctx.oracle_failure("process-died", "the process running the implementation died (%s) while the check was driving it; the case that was running is the replay" % how,
+                           {"exit_status": rc0, "last_case": last_case})
+        return finish(ctx, mod)
     try:
         mod.run(ctx)
     except Exception:
